@@ -365,6 +365,26 @@ def open_iff_last_on(c):
     c.ensure("step", z3.Implies(lemma(s), lemma(z3.Concat(s, z3.Unit(x)))))
 
 
+def absorbing(whole, i):
+    """instance of: a prefix in state BAD makes every extension BAD (induction on the extension; the step is
+    the contract `bad_is_absorbing`), so a well-formed sequence has only well-formed prefixes"""
+    return z3.Implies(z3.And(i >= 0, i <= z3.Length(whole)),
+                      z3.And(z3.Implies(SEG(whole) != BAD, SEG(prefix(whole, i)) != BAD),
+                             z3.Implies(ALT(whole) != BAD, ALT(prefix(whole, i)) != BAD)))
+
+
+def bad_is_absorbing(c):
+    """step of the induction behind `absorbing`: F(s) = BAD  =>  F(s + [x]) = BAD, for SEG and ALT"""
+    p = cur()
+    base_axioms(p)
+    s = z3.Const("s", SEQ)
+    x = z3.Int("x")
+    p.assume(snoc(p, s, x))
+    sx = z3.Concat(s, z3.Unit(x))
+    c.ensure("seg_step", z3.Implies(SEG(s) == BAD, SEG(sx) == BAD))
+    c.ensure("alt_step", z3.Implies(ALT(s) == BAD, ALT(sx) == BAD))
+
+
 def frame_obligations(g):
     """syntactic obligations the proofs rely on"""
     import inspect
@@ -419,6 +439,7 @@ def prove_passes(ctx):
     for name, contract, fn in PASSES:
         ctx.prove(name, contract, functions=[fn], setup_interp=setup, crosscheck=False)
     ctx.prove("scc.italics_folds/open_iff_last_on", open_iff_last_on, crosscheck=False)
+    ctx.prove("scc.italics_folds/bad_is_absorbing", bad_is_absorbing, crosscheck=False)
     ctx.prove("scc._format_italics", format_italics, functions=[SC._format_italics, SC._remove_noop_italics],
               contracts=CALLEE_CONTRACTS, setup_interp=setup, crosscheck=False)
     ctx.frame("scc.italics_frames", frame_obligations)
